@@ -89,9 +89,18 @@ def fibre(
     amp=None,
     nmatch=0,
     match_reverse=None,
+    front_only=False,
 ):
     x = make_x(rng, nx, span, irregular)
     nx = x.size
+    if front_only and segs is None:
+        # reference sections only in the first half; one splice behind them; matching sections carry the information across
+        nfront = max(int(0.5 * nx), 2 * (2 * nbath + 1))
+        segs = layout(rng, nfront, nbath, 1)
+        segs[-1] = (segs[-1][0], segs[-1][1], nfront - 1)
+        rest = nx - nfront
+        k1 = nfront + rest // 3
+        segs += [(None, nfront, k1 - 1), (None, k1, nx - 1)]
     segs = segs or layout(rng, nx, nbath, nstretch_max)
     bath_T = {b: float(rng.uniform(2.0, 45.0)) + rng.normal(0, 0.8, nt) for b in range(nbath)}
     T = np.empty((nx, nt))
@@ -108,7 +117,14 @@ def fibre(
     for _ in range(nmatch):
         if len(free) < 2:
             break
-        i1, i2 = sorted(rng.choice(len(free), size=2, replace=False).tolist())
+        if front_only:
+            up = [k for k, (a, e) in enumerate(free) if e < segs[-1][1]]
+            dn = [k for k, (a, e) in enumerate(free) if a >= segs[-1][1]]
+            if not up or not dn:
+                break
+            i1, i2 = int(rng.choice(up)), int(rng.choice(dn))
+        else:
+            i1, i2 = sorted(rng.choice(len(free), size=2, replace=False).tolist())
         (a1, e1), (a2, e2) = free[i1], free[i2]
         free = [f for k, f in enumerate(free) if k not in (i1, i2)]
         n = int(min(e1 - a1 + 1, e2 - a2 + 1, rng.integers(2, 5)))
@@ -127,6 +143,12 @@ def fibre(
     # splices: placed so that at least two reference locations lie on either side (otherwise the loss is not determinable)
     ref_ix = np.array(sorted(i for b, a, e in segs if b is not None for i in range(a, e + 1)))
     tas = []
+    if front_only:
+        a_last, e_last = segs[-1][1], segs[-1][2]
+        j = a_last - 1
+        on = bool(rng.random() < 0.5) if ta_on_grid is None else ta_on_grid
+        tas = [float(x[a_last]) if on else float((x[j] + x[a_last]) / 2)] if nta else []
+        nta = 0
     for k in range(nta):
         on = bool(rng.random() < 0.5) if ta_on_grid is None else ta_on_grid
         cands = [j for j in range(2, nx - 2) if (ref_ix < j).sum() >= 2 and (ref_ix > j + (0 if on else 0)).sum() >= 2
